@@ -730,6 +730,14 @@ func checkC02(e *Env, r *Report) {
 		fullB.Drop()
 	}
 	r.Coverage["alone_vs_whole_comparisons"] = nNb
+	// (3) the configuration the tool works out by itself: without $DISTRIBUTION the distribution comes from the
+	// host's os-release; the same os-release must give the same run every time (outcome, output, message)
+	if recsD, n, skipped := detectPhase(e); skipped != "" {
+		r.Assume = append(r.Assume, "host auto-detection not exercised: "+skipped)
+	} else {
+		recs = append(recs, recsD...)
+		r.Coverage["autodetect_runs"] = n
+	}
 	if len(r.Inconcl) > 5 {
 		r.Fatal = fmt.Sprintf("%d reduced builds failed, e.g. %s", len(r.Inconcl), r.Inconcl[0])
 		return
@@ -737,4 +745,74 @@ func checkC02(e *Env, r *Report) {
 	r.Sample(recs[len(recs)-1])
 	r.Assume = append(r.Assume, "Go map iteration order is sampled by repetition: a missed nondeterminism is possible, a false one is not")
 	runDirectivesTrace(e, r, recs, "C02")
+}
+
+// detectPhase runs the real prebuild on a minimal source without $DISTRIBUTION under faked os-release files.
+func detectPhase(e *Env) ([]any, int, string) {
+	if out, err := execCmd("unshare", "-m", "sh", "-c", "mount --bind /etc/hostname /etc/hostname"); err != nil {
+		return nil, 0, "no private mount namespace in this sandbox (" + strings.TrimSpace(tail(out, 120)) + ")"
+	}
+	// every distribution leaves its mark on the output: its ignore list drops one profile of its own
+	perDist := map[string]string{}
+	for _, d := range Dists {
+		perDist["apparmor.d/groups/vdist/vdist-"+d] = "abi <abi/4.0>,\n\ninclude <tunables/global>\n\n@{exec_path} = @{bin}/vdist-" + d + "\nprofile vdist-" + d + " @{exec_path} {\n  include <abstractions/base>\n\n  @{exec_path} mr,\n\n  include if exists <local/vdist-" + d + ">\n}\n"
+		perDist["dists/ignore/"+d+".ignore"] = "# " + d + "\nvdist-" + d + "\n"
+		perDist["dists/flags/"+d+".flags"] = "# " + d + "\n"
+	}
+	mini, err := e.MiniSrc("mini-detect", perDist)
+	if err != nil {
+		return nil, 0, err.Error()
+	}
+	type osr struct {
+		name, text string
+		runs       int
+	}
+	many := 32
+	if e.Tier == "thorough" {
+		many = 96
+	}
+	cases := []osr{
+		{"arch", "ID=arch\n", 4},
+		{"debian", "ID=debian\nVERSION_ID=\"12\"\n", 4},
+		{"ubuntu", "ID=ubuntu\nID_LIKE=debian\n", 8},
+		{"neon", "ID=neon\nID_LIKE=\"ubuntu debian\"\n", many},
+		{"tumbleweed", "ID=\"opensuse-tumbleweed\"\nID_LIKE=\"opensuse suse\"\n", many},
+		{"kali", "ID=kali\nID_LIKE=debian\n", 8},
+		{"manjaro", "ID=manjaro\nID_LIKE=arch\n", 8},
+		{"mint", "ID=linuxmint\nID_LIKE=\"ubuntu debian\"\n", many},
+		{"unknown", "ID=void\n", 4},
+	}
+	recs := []any{}
+	total := 0
+	for _, c := range cases {
+		f := filepath.Join(e.Scratch, "osr-"+c.name)
+		if err := os.WriteFile(f, []byte(c.text), 0o644); err != nil {
+			return nil, 0, err.Error()
+		}
+		outcomes := make([]string, c.runs)
+		parallel(c.runs, 8, func(i int) {
+			b := e.RunPrebuild(Cfg{"-", 4, "4.1", "complain", false}, BuildOpts{Src: mini, Tag: fmt.Sprint("osr", c.name, i), NoCache: true, OSRelease: f})
+			defer b.Drop()
+			last := ""
+			if ls := strings.Split(strings.TrimSpace(b.Stdout), "\n"); len(ls) > 0 {
+				last = ls[len(ls)-1]
+			}
+			if b.Err != nil {
+				outcomes[i] = "failed: " + last
+				return
+			}
+			h := hashTree(b.Out)
+			ks := []string{}
+			for k, v := range h {
+				ks = append(ks, k+"="+v)
+			}
+			sort.Strings(ks)
+			outcomes[i] = "built: " + shaS(strings.Join(ks, "\n"))
+		})
+		total += c.runs
+		for i := 1; i < c.runs; i++ {
+			recs = append(recs, map[string]any{"ev": "same", "id": fmt.Sprintf("detect|%s|run%d", c.name, i), "what": "two runs without $DISTRIBUTION on a host with the same os-release (" + strings.ReplaceAll(strings.TrimSpace(c.text), "\n", " ") + ") end differently", "a": outcomes[0], "b": outcomes[i]})
+		}
+	}
+	return recs, total, ""
 }
